@@ -11,6 +11,10 @@ TABLES = os.path.join(os.path.dirname(os.path.dirname(os.path.abspath(__file__))
 PROCESS_TRAIT = "processor::Process"
 GET_TRAIT = "selection::Get"
 BOX_PROCESS = "std::boxed::Box<dyn processor::Process>"
+# set by ./check: the thorough tier widens the bounded explorations (container grammar 0..6 elements, row grammar
+# 1..6 fields, limiter machine 8 x 9 x 18)
+TIER = "quick"
+
 LOOK = ("Try>::branch", "Try::branch", "Clone>::clone", "Deref>::deref", "DerefMut>::deref_mut",
         "AsRef>::as_ref", "Borrow>::borrow", "AsMut>::as_mut", "BorrowMut>::borrow_mut",
         "convert::AsRef::as_ref", "convert::AsMut::as_mut", "borrow::Borrow::borrow", "borrow::BorrowMut::borrow_mut",
